@@ -13,6 +13,11 @@ inductive StreamErr where
   | gen (e : GenErr)
   deriving Repr, DecidableEq
 
+/-- how many bytes the next `read` call may deliver: the scripted size capped by the 32 KiB buffer;
+    after the script is exhausted the reader fills the buffer -/
+def wantOf (sizes : List Nat) : Nat :=
+  match sizes with | [] => BUFFER_SIZE | s :: _ => min s BUFFER_SIZE
+
 /-- rs: `hash_stream_common`: the `loop { let len = reader.read(&mut buffer)?; … }`.
     `sizes` lists how many bytes each successive `read` is willing to deliver (capped by the buffer
     and by the remaining data; a scripted 0 or exhausted data ends the stream); after the script is
@@ -24,8 +29,7 @@ def hashStreamLoop (g : Gen) (data : List UInt8) (sizes : List Nat) (failAt : Op
   | fuel + 1 =>
     if failAt.isSome && (failAt.map (·.1)) == some callNo then .error (.io ((failAt.map (·.2)).getD 0))
     else
-      let want := match sizes with | [] => BUFFER_SIZE | s :: _ => min s BUFFER_SIZE
-      let chunk := data.take want
+      let chunk := data.take (wantOf sizes)
       if chunk.isEmpty then .ok g
       else hashStreamLoop (g.update chunk) (data.drop chunk.length) (sizes.drop 1) failAt (callNo + 1) fuel
 
